@@ -27,7 +27,8 @@ def _last(d):
 def canonicalise(facts):
     doc = inline.vocabulary_doc() or {}
     sigs = doc.get("signatures") or {}
-    vocab = set(doc.get("functions") or [])
+    from .inline import _Vocab, canon_path
+    vocab = _Vocab(canon_path(x) for x in (doc.get("functions") or []))
     if not sigs:
         return {}
     types = facts["types"]
